@@ -13,7 +13,7 @@ import numpy as np
 
 import os
 
-from common import Check, MachineryError, main_wrapper, run_tlc, run_workers, tlc_printed_values, worker_main
+from common import handle_crash, Check, MachineryError, main_wrapper, run_tlc, run_workers, tlc_printed_values, worker_main
 import models as M
 from ciderpress.dft import baselines
 from ciderpress.dft.transform_data import FeatureList, UMap
@@ -219,6 +219,56 @@ def accumulation(ck, rng):
                     ck.violation("kernel-evaluator:chunk-boundary:deriv", {"n": n, "err": float(np.abs(g - db[:, j]).max())})
 
 
+def special_points(ck, rng):
+    """the derivative array of every bare evaluator against finite differences of its value at points where a special-cased
+    branch could sit: two (or all) features exactly equal, a feature exactly at a control point's value, a point that IS a
+    control point, features exactly 0 / 1 (not for splines: outside their grid the package extrapolates, observation O8)"""
+    for kind in ("kernel", "rbf", "antisym", "linear", "spinrbf", "spline"):
+        ev = make_eval(kind, rng)
+        ctrl = getattr(ev, "_X1ctrl", getattr(ev, "X1ctrl", None))
+        base = rng.uniform(0.15, 0.85, size=(8, N1))
+        base[0, 1] = base[0, 0]                       # the first two features equal (the node of the antisymmetric kernel)
+        base[1, :] = base[1, 0]                       # all features equal
+        base[2, 0], base[2, 1] = base[2, 1], base[2, 1]
+        if ctrl is not None:
+            c0 = np.asarray(ctrl).reshape(-1, N1)[0]
+            if kind != "spline" and np.all((c0 > 0.05) & (c0 < 0.95)):
+                base[3] = c0                          # the point is a control point
+            base[4, 2] = float(np.asarray(ctrl).reshape(-1, N1)[1, 2])
+        if kind != "spline":
+            base[5, 0], base[6, 1] = 0.0, 1.0
+            base[7, :2] = 0.0
+        X1 = np.stack([base, base[::-1] * 0.9 + 0.05]) if kind == "spinrbf" else base
+        f, df = ev(X1.copy())
+        f, df = np.array(f, copy=True), np.array(df, copy=True)
+        ck.count(key=("special", kind))
+        if not (np.all(np.isfinite(f)) and np.all(np.isfinite(df))):
+            ck.violation("special-points:%s:non-finite" % kind, {})
+            continue
+        h = 1e-5
+        worst, where = 0.0, None
+        it = [(s, j) for s in range(2) for j in range(N1)] if kind == "spinrbf" else [(None, j) for j in range(N1)]
+        for s_, j in it:
+            def val(hh):
+                Y = X1.copy()
+                if s_ is None:
+                    Y[:, j] += hh
+                else:
+                    Y[s_, :, j] += hh
+                return np.array(ev(Y)[0], copy=True)
+            g1 = (val(h) - val(-h)) / (2 * h)
+            g2 = (val(2 * h) - val(-2 * h)) / (4 * h)
+            g = (4 * g1 - g2) / 3
+            d = df[:, j] if s_ is None else df[s_, :, j]
+            err = np.abs(g - d) - 20 * np.abs(g1 - g2) - 1e-7 * (1 + np.abs(g))
+            if float(err.max()) > worst:
+                worst, where = float(err.max()), (s_, j, int(np.argmax(err)))
+        if worst > 0:
+            ck.violation("special-points:%s:derivative-differs-from-finite-difference-of-the-value" % kind,
+                         {"excess": worst, "spin": where[0], "feature": where[1], "row": where[2],
+                          "rows": "0: x0 == x1; 1: all equal; 2: x0 == x1 (other order); 3: a control point; 4: one feature of a control point; 5-7: features exactly 0 / 1"})
+
+
 def value_semantics(ck, rng, hists):
     """spec/ValueSemantics.tla replayed on the evaluators and on mapped kernels: the caller reuses / overwrites its
     feature arrays between calls and keeps earlier results (energy densities, derivative arrays)."""
@@ -311,7 +361,8 @@ def main():
     jobs = [{"cfgs": chosen[k::48], "seed": ck.seed + k} for k in range(48)]
     for res in run_workers(os.path.abspath(__file__), jobs, nproc=16, timeout=3000):
         if "crash" in res:
-            raise MachineryError("worker crashed: %s\n%s" % (res["crash"], res.get("tb")))
+            handle_crash(ck, res)
+            continue
         for v in res["violations"]:
             ck.violation(v["site"], v["detail"], v["replay"])
         ck.evaluations += res["evaluations"]
@@ -324,7 +375,8 @@ def main():
         if "worker_died" in res:
             ck.violation("accumulate:process-died", {"returncode": res["worker_died"], "log": res["log"][-400:]})
         elif "crash" in res:
-            raise MachineryError("worker crashed: %s\n%s" % (res["crash"], res.get("tb")))
+            handle_crash(ck, res)
+            continue
         else:
             for v in res["violations"]:
                 ck.violation(v["site"], v["detail"], v["replay"])
@@ -359,7 +411,8 @@ def main():
         if "worker_died" in res:
             ck.violation("threads=3:process-died", {"returncode": res["worker_died"], "log": res["log"][-400:]})
         elif "crash" in res:
-            raise MachineryError("worker crashed: %s\n%s" % (res["crash"], res.get("tb")))
+            handle_crash(ck, res)
+            continue
         else:
             for v in res["violations"]:
                 ck.violation("threads=3:" + v["site"], v["detail"], v["replay"])
@@ -383,6 +436,7 @@ def worker(job):
         return {"violations": ck.violations, "evaluations": ck.evaluations, "distinct": sorted(ck.distinct)}
     if job.get("acc"):
         accumulation(ck, rng)
+        special_points(ck, rng)
         value_semantics(ck, rng, job.get("vs_hists", []))
         return {"violations": ck.violations, "evaluations": ck.evaluations, "distinct": sorted(ck.distinct)}
     for k, c in enumerate(job["cfgs"]):
